@@ -118,6 +118,8 @@ def p_expr(e):
         return "(%s getVariable %s)" % (e[1], sqf_str(e[2]))
     if k == "fault":
         return "(fault__ %d)" % e[1]
+    if k == "exc_has":
+        return '("[FAULTOP] %d" in (str _exception))' % e[1]
     raise ValueError("p_expr: " + repr(e))
 
 
@@ -573,6 +575,9 @@ class Interp:
         if k == "fault":
             self.cur.fault_points += 1
             raise SqfError(e[1])
+        if k == "exc_has":
+            ex = self.lookup("_exception")[1]
+            return isinstance(ex, Exc) and e[1] in ex.tags
         raise ValueError("expr " + repr(e))
 
     def binop(self, op, a, b):
